@@ -40,13 +40,16 @@ class Unit:
             if k2[0] == id(impl) and any(g is f for (g, _c) in l2):
                 return f    # already selected (first contract wins)
         lst = self.sel.setdefault(key, [])
-        lst.append((f, contract))
         anchor = '%s :: %s :: %s' % (path, norm(header), fn)
-        if contract is not None and contract.tag is None:
+        bare = contract is None
+        if bare:
+            contract = Contract(ret=None)     # no clauses: the function is only checked against vstd's spec traits / for panics
+        if contract.tag is None:
             contract.tag = '%s/%s' % (self._short(path, header), fn)
-        if contract is not None and contract.external_body:
+        lst.append((f, contract))
+        if contract.external_body:
             self.assumed.append(anchor)
-        elif contract is not None:
+        elif not bare or ' for ' in norm(header).replace('for<', ''):
             self.functions.append(anchor)
         return f
 
